@@ -96,6 +96,7 @@ def obligations(tier):
     for om in (0, 1, 2):
         for cn in CN:
             for li, (rows, nrg, batch) in enumerate(LAYOUTS):
+                if q and li and cn != 'unc': continue
                 api = (li + om) % 2
                 o.append(cut('one', ONE, rows, nrg, batch, 0, cn, om, api=api))
                 o.append(cut('tail', TAIL, rows, nrg, batch, 8, cn, om, api=1 - api))
@@ -120,7 +121,8 @@ def obligations(tier):
             o.append(cut('shared-page', 'I,s,b,Sl,xD', 8, 2, 3, 0, cn, om, api=om % 2, ps=1048576))     # several write_batch calls fill ONE page
     for cn in CN:
         for api in (0, 1):
-            for rows, nrg, batch in LAYOUTS + BIG[:2]:
+            for li, (rows, nrg, batch) in enumerate(LAYOUTS + BIG[:2]):
+                if q and li and cn != 'unc': continue
                 o.append(sink('one', ONE, rows, nrg, batch, 0, cn, api))
                 o.append(abort('one', ONE, rows, nrg, batch, 0, cn, api))
                 o.append(abort('two', TWO, rows, nrg, batch, 1, cn, api, fault=True, timeout=1500))
